@@ -4,7 +4,7 @@
 import copy
 
 from ._compat import PY_3_9_PLUS, get_generic_base
-from ._make import _OBJ_SETATTR, NOTHING, fields
+from ._make import _HASH_CACHE_FIELD, _OBJ_SETATTR, NOTHING, fields
 from .exceptions import AttrsAttributeNotFoundError
 
 
@@ -397,6 +397,10 @@ def assoc(inst, **changes):
             msg = f"{k} is not an attrs attribute on {new.__class__}."
             raise AttrsAttributeNotFoundError(msg)
         _OBJ_SETATTR(new, k, v)
+    if changes and getattr(new, _HASH_CACHE_FIELD, None) is not None:
+        # The shallow copy carried over a hash code that was cached for the
+        # old field values.
+        _OBJ_SETATTR(new, _HASH_CACHE_FIELD, None)
     return new
 
 
